@@ -4,6 +4,7 @@
 #include <cmath>
 
 #include "world.hpp"
+#include "tstate.hpp"
 
 namespace djsim
 {
@@ -349,6 +350,36 @@ void World::check_purity_end(const char* what)
         report("C16", base + "image-changed", "database file content changed during observation");
 }
 
+// The other observing operations the statement lists: verify(), database_exists()
+// with the library open, and the read side of the 2.x table API.
+void World::purity_extras()
+{
+    if (!db)
+        return;
+    check_purity_begin();
+    Outcome v = call(FaultSpec{}, [&] { db->verify(); });
+    check_purity_end("verify");
+    if (v.threw)
+        probes.hit("verify_threw_in_purity_block");
+    if (plan.cfg.on_disk)
+    {
+        check_purity_begin();
+        bool ex = false;
+        Outcome o = call(FaultSpec{}, [&] { ex = eng::database_exists(dir); });
+        check_purity_end("database_exists");
+        if (!o.threw && !ex)
+            report("C16", "C16|database_exists|" + fam() + "|false-while-open", "database_exists() is false for the library that is open");
+        probes.hit("purity_database_exists");
+    }
+    if (v2 && tstate && tstate->lib)
+    {
+        check_purity_begin();
+        table_read_all();
+        check_purity_end("table-read");
+        probes.hit("purity_table_reads");
+    }
+}
+
 void World::after_step(const StepEffect& e)
 {
     log.str(e.out.threw ? "threw:" + e.out.exc : "ok");
@@ -385,6 +416,7 @@ void World::after_step(const StepEffect& e)
         if (a != b)
             report("C16", "C16|observe|" + fam() + "|answers-differ",
                    "two consecutive observations differ: " + first_diff_line(a, b));
+        purity_extras();
         probes.hit("purity_checked");
     }
     if (check(CK_MODEL) && !(e.out.threw && faulted) && !e.raw)
